@@ -122,6 +122,8 @@ def run_shard(ctx):
                     if not ctx.mine(k):
                         continue
                     cols = [S.make_column("c%d" % q, (["int"], None), []) for q in range(4)]
+                    if k % 4 == 0:
+                        cols[3]["opts"] = [{"k": "pk"}]        # the key declared twice: inline on c3 and by the clause
                     cl = {"kind": "pk", "cols": ["c%d" % q for q in range(ncols)], "name": name, "orders": list(orders), "modifier": modifier}
                     t = {"schema": None, "name": "t", "prefix": "plain", "items": [("col", c) for c in cols] + [("clause", cl)]}
                     layout = [None, {"case": "lower"}][k % 2]
